@@ -10,7 +10,7 @@ CLAIMED = {
             "numpy's byte reinterpretation and fsspec I/O are contracts (tested); model tied by differential testing", "7 C01"),
     "C02": ("Lean theorem getitem_eq_np: model of Array.__getitem__ = NumPy basic indexing of the loaded image for every image, rpc and basic key; BASIC support re-read from source; correspondence over the full slice cube; isel/vectorised oracle vs in-memory twin",
             "xarray's indexer decomposition is third-party (tested end-to-end; two xarray-internal failures are recorded as known findings)", "7 C02"),
-    "C06": ("Lean theorems metadata_rpc_independent / data_rpc_independent / preferred_chunksize; pairwise bit-exact tree comparison oracle",
+    "C06": ("Lean theorems image_rpc_independent (layout-based reader: two successful opens of a well-framed image with any two chunk sizes return the same header, line records, image group and array metadata up to the chunk size) / record_window (translation invariance of the layout interpreter on the line-record layouts) / metadata_rpc_independent / data_rpc_independent / preferred_chunksize; pairwise bit-exact tree comparison oracle",
             "float division in math.ceil exact below 2**53", "7 C06"),
     "C11": ("Lean theorems on the I/O trace component of the model (one seek+read per touched chunk, confined to the chunk and the file; open pass = prefix of ceil(n/rpc) sequential reads); event-sequence correspondence against a tracing file object; instrumented-filesystem oracle",
             "xarray may widen selections before the backend is called; bound checked against the selection's line span", "7 C11"),
